@@ -78,7 +78,7 @@ def small(v):
     if isinstance(v, str):
         return len(v) <= 1
     if isinstance(v, int):
-        return -3 <= v <= 4
+        return -1 <= v <= 2
     return True
 
 
@@ -334,7 +334,9 @@ MODELS['sweep'] = sweep_expected
 # ------------------------------------------------------------------ harness functions
 # One function per signature of symbolic values: S = Union[None,bool,int,str], I = int, L = List[int].  Operands whose
 # value cannot influence the order (a branch value, the last alternative) are typed int to keep the path count down.
-def ok(v):
+def ok(v, k=0):
+    if k in H.P('nostr', ()) and isinstance(v, str):
+        return False          # a symbolic string used as a dict key is enumerated value by value by the tool
     return small(v) if H.P('small', False) else True
 
 
@@ -345,7 +347,7 @@ def go(v):
 
 def s1(v1: Scalar) -> bool:
     """
-    pre: ok(v1)
+    pre: ok(v1, 1)
     pre: H.fresh(v1)
     post: _
     """
@@ -354,7 +356,7 @@ def s1(v1: Scalar) -> bool:
 
 def s2(v1: Scalar, v2: Scalar) -> bool:
     """
-    pre: ok(v1) and ok(v2)
+    pre: ok(v1, 1) and ok(v2, 2)
     pre: H.fresh(v1, v2)
     post: _
     """
@@ -363,7 +365,7 @@ def s2(v1: Scalar, v2: Scalar) -> bool:
 
 def ssi(v1: Scalar, v2: Scalar, v3: int) -> bool:
     """
-    pre: ok(v1) and ok(v2) and ok(v3)
+    pre: ok(v1, 1) and ok(v2, 2) and ok(v3, 3)
     pre: H.fresh(v1, v2, v3)
     post: _
     """
@@ -372,7 +374,7 @@ def ssi(v1: Scalar, v2: Scalar, v3: int) -> bool:
 
 def sii(v1: Scalar, v2: int, v3: int) -> bool:
     """
-    pre: ok(v1) and ok(v2) and ok(v3)
+    pre: ok(v1, 1) and ok(v2, 2) and ok(v3, 3)
     pre: H.fresh(v1, v2, v3)
     post: _
     """
@@ -381,7 +383,7 @@ def sii(v1: Scalar, v2: int, v3: int) -> bool:
 
 def iis(v1: int, v2: int, v3: Scalar) -> bool:
     """
-    pre: ok(v1) and ok(v2) and ok(v3)
+    pre: ok(v1, 1) and ok(v2, 2) and ok(v3, 3)
     pre: H.fresh(v1, v2, v3)
     post: _
     """
@@ -390,7 +392,7 @@ def iis(v1: int, v2: int, v3: Scalar) -> bool:
 
 def sss(v1: Scalar, v2: Scalar, v3: Scalar) -> bool:
     """
-    pre: ok(v1) and ok(v2) and ok(v3)
+    pre: ok(v1, 1) and ok(v2, 2) and ok(v3, 3)
     pre: H.fresh(v1, v2, v3)
     post: _
     """
@@ -399,7 +401,7 @@ def sss(v1: Scalar, v2: Scalar, v3: Scalar) -> bool:
 
 def sisi(v1: Scalar, v2: int, v3: Scalar, v4: int) -> bool:
     """
-    pre: ok(v1) and ok(v2) and ok(v3) and ok(v4)
+    pre: ok(v1, 1) and ok(v2, 2) and ok(v3, 3) and ok(v4, 4)
     pre: H.fresh(v1, v2, v3, v4)
     post: _
     """
@@ -408,7 +410,7 @@ def sisi(v1: Scalar, v2: int, v3: Scalar, v4: int) -> bool:
 
 def siii(v1: Scalar, v2: int, v3: int, v4: int) -> bool:
     """
-    pre: ok(v1) and ok(v2) and ok(v3) and ok(v4)
+    pre: ok(v1, 1) and ok(v2, 2) and ok(v3, 3) and ok(v4, 4)
     pre: H.fresh(v1, v2, v3, v4)
     post: _
     """
@@ -417,7 +419,7 @@ def siii(v1: Scalar, v2: int, v3: int, v4: int) -> bool:
 
 def ssii(v1: Scalar, v2: Scalar, v3: int, v4: int) -> bool:
     """
-    pre: ok(v1) and ok(v2) and ok(v3) and ok(v4)
+    pre: ok(v1, 1) and ok(v2, 2) and ok(v3, 3) and ok(v4, 4)
     pre: H.fresh(v1, v2, v3, v4)
     post: _
     """
@@ -435,7 +437,7 @@ def l1(l: List[int]) -> bool:
 
 def l2(l: List[int], v2: Scalar) -> bool:
     """
-    pre: len(l) <= H.P('llen', 3) and ok(v2)
+    pre: len(l) <= H.P('llen', 3) and ok(v2, 2)
     pre: H.fresh(l, v2)
     post: _
     """
@@ -444,7 +446,7 @@ def l2(l: List[int], v2: Scalar) -> bool:
 
 def lsi(l: List[int], v2: Scalar, v3: int) -> bool:
     """
-    pre: len(l) <= H.P('llen', 2) and ok(v2) and ok(v3)
+    pre: len(l) <= H.P('llen', 2) and ok(v2, 2) and ok(v3, 3)
     pre: H.fresh(l, v2, v3)
     post: _
     """
@@ -531,11 +533,11 @@ def lazy_catalogue(quick=True):
     add(['selectCase'], 'selectCase', 'ssi', 'selectCase(%s, %s, %s)' % (v(1), v(2), v(3)), 'select_case', 3)
     add(['selectCase'], 'selectCase.switchCase', 'ssii',
         'selectCase(%s, %s).switchCase(%s, %s, 0)' % (v(1), v(2), v(3), v(4)), 'sc_sw', 4)
-    add(['selectAllCases'], 'selectAllCases', 'ssi', 'selectAllCases(%s, %s, %s)' % (v(1), v(2), v(3)), 'eager', 3)
-    add(['examine'], 'examine', 'ssi', 'examine(%s, %s, %s)' % (v(1), v(2), v(3)), 'eager', 3)
+    add(['selectAllCases'], 'selectAllCases', 'sii' if quick else 'ssi', 'selectAllCases(%s, %s, %s)' % (v(1), v(2), v(3)), 'eager', 3)
+    add(['examine'], 'examine', 'sii' if quick else 'ssi', 'examine(%s, %s, %s)' % (v(1), v(2), v(3)), 'eager', 3)
     add(['coalesce'], 'coalesce', 'ssi', 'coalesce(%s, %s, %s)' % (v(1), v(2), v(3)), 'coalesce', 3)
     add(['assert'], 'assert', 's2', '%s.assert(%s)' % (v(1), v(2)), 'eager', 2)
-    add(['assert'], 'assert-message', 'iis', '%s.assert(%s, %s)' % (v(1), v(2), v(3)), 'assert_msg', 3)
+    add(['assert'], 'assert-message', 'iis', '%s.assert(%s, %s)' % (v(1), v(2), v(3)), 'assert_msg', 3, small=True)
     add(['def'], 'def-called-twice', 's1', 'def(f, %s) -> [f(), f()]' % v(1), 'def_twice', 1)
     add(['def'], 'def-unused', 's2', 'def(f, %s) -> %s' % (v(1), v(2)), 'def_unused', 2)
     add(['#operator_->'], 'let-arrow', 's2', 'let(%s, x => %s) -> [%s, %s]' % (v(1), v(2), p(3, '$x'), p(4, '$1')),
@@ -551,7 +553,7 @@ def lazy_catalogue(quick=True):
     for name in ('all', 'takeWhile', 'skipWhile'):
         add([name], name, 'lb', '%s.%s(%s)' % (v(1), name, gt), 'until_false', 2, llen=ll)
     add(['any'], 'any-function-spelling', 'lb', 'any(%s, %s)' % (v(1), gt), 'until_true', 2, llen=ll)
-    add(['toDict'], 'toDict', 'lb', '%s.toDict(%s, %s)' % (v(1), p(2, '$'), p(3, '$ > $b')), 'pairs', 3, llen=2)
+    add(['toDict'], 'toDict', 'lb', '%s.toDict(%s, %s)' % (v(1), p(2, '$ > $b'), p(3, '$')), 'pairs', 3, llen=2)
     for name in ('aggregate', 'reduce'):
         add([name], name, 'lb', '%s.%s(%s)' % (v(1), name, p(2, '$1 + $2')), 'reduce', 2, llen=ll)
     add(['aggregate'], 'aggregate-seed', 'lb', '%s.aggregate(%s, %s)' % (v(1), p(2, '$1 + $2'), p(3, '$b')),
@@ -632,9 +634,12 @@ def eager_catalogue():
             C.append(('op[%s list]' % sym, 'l2', text, 'eager', 2, {'small': True, 'llen': 2}))
     C.append(('#list', 'ssi', '[%s, %s, %s]' % (v(1), v(2), v(3)), 'eager', 3, {}))
     C.append(('#list nested', 'ssi', '[%s, [%s, %s]]' % (v(1), v(2), v(3)), 'eager', 3, {}))
-    C.append(('#map', 'sisi', '{%s => %s, %s => %s}' % (v(1), v(2), v(3), v(4)), 'eager', 4, {}))
-    C.append(('#map in #list', 'iis', '[%s, {%s => %s}]' % (v(1), v(3), v(2)), 'map_in_list', 3, {}))
-    C.append(('dict()', 'sisi', 'dict(%s => %s, %s => %s)' % (v(1), v(2), v(3), v(4)), 'eager', 4, {}))
+    C.append(('#map', 'siii', '{%s => %s, %s => %s}' % (v(1), v(2), v(3), v(4)), 'eager', 4,
+              {'small': True, 'nostr': [1, 3]}))
+    C.append(('#map in #list', 'iis', '[%s, {%s => %s}]' % (v(1), v(3), v(2)), 'map_in_list', 3,
+              {'small': True, 'nostr': [3]}))
+    C.append(('dict()', 'sisi', 'dict(%s => %s, %s => %s)' % (v(1), v(2), v(3), v(4)), 'eager', 4,
+              {'small': True, 'nostr': [1, 3]}))
     C.append(('#indexer list', 'l2', '%s[%s]' % (v(1), v(2)), 'eager', 2, {'small': True}))
     C.append(('#indexer dict', 'l2', '%s[%s]' % (v(1), v(2)), 'eager', 2, {'first': 'dict', 'llen': 2}))
     C.append(('#indexer dict default', 'lsi', '%s[%s, %s]' % (v(1), v(2), v(3)), 'eager', 3,
@@ -714,7 +719,7 @@ def sweep_catalogue():
                             out.append(('sweep[%s]' % text.replace('tick', '').replace(' ', '') +
                                         ('' if first == 'scalar' else '/' + first),
                                         func, text, 'sweep', total,
-                                        {'sweep': case, 'first': first, 'small': True, 'llen': 2}))
+                                        {'sweep': case, 'first': first, 'small': True, 'llen': 2 if total == 1 else 1}))
     return out
 
 
@@ -751,7 +756,7 @@ def conditions(tier, seed):
                 break
     for name, func, text, model, n, extra in sweep_catalogue():
         if quick:
-            k = 3 if func == 'sel' else 12
+            k = 4 if func == 'sel' else 16
             if (L.stable_hash(name) + seed) % k != 0:
                 continue
         out.append({'name': name, 'func': func, 'timeout': t, 'param': dict({'text': text, 'model': model, 'n': n}, **extra),
